@@ -350,7 +350,33 @@ impl Driver {
     }
 
     // -------------------------------------------------------------- history
+    /// a transaction that outside blocks already proposed reaches the pool only now: it enters in
+    /// stage Gap / Proposed and drives the assembler's update_transactions path
+    fn submit_proposed_secret(&mut self, rng: &mut Rng) {
+        let snap = self.w.node.shared.snapshot();
+        let view = snap.proposals().clone();
+        let (dump, _) = self.w.node.pool().verif_dump();
+        let pooled: HashSet<Byte32> = dump.entries.iter().map(|e| e.tx_hash.clone()).collect();
+        let cands: Vec<usize> = (0..self.w.txs.len())
+            .filter(|i| {
+                let t = &self.w.txs[*i];
+                let id = t.tx.proposal_short_id();
+                t.secret && !t.tx.is_cellbase() && (view.contains_proposed(&id) || view.contains_gap(&id))
+                    && !pooled.contains(&t.tx.hash()) && snap.get_transaction_info(&t.tx.hash()).is_none()
+            })
+            .collect();
+        for i in cands.into_iter().take(rng.range(1, 3) as usize) {
+            let t = self.w.txs[i].clone();
+            self.w.txs[i].secret = false;
+            self.w.stat("submit_already_proposed_tx");
+            self.w.submit(&t.tx, t.fee, "already-proposed");
+        }
+    }
+
     fn step_submit(&mut self, rng: &mut Rng) {
+        if rng.chance(1, 3) {
+            self.submit_proposed_secret(rng);
+        }
         let n = rng.range(1, 4);
         for _ in 0..n {
             let (dump, _) = self.w.node.pool().verif_dump();
